@@ -5249,10 +5249,15 @@ func checkValue(
 			rootError := r
 			for {
 				switch err := r.(type) {
-				case errors.UserError, errors.ExternalError:
+				case errors.UserError:
 					valueError = err.(error)
 					return
 				case xerrors.Wrapper:
+					// NOTE: an external error is not a problem of the value by itself:
+					// e.g. a failure of the host to load a program must not be ignored.
+					// However, the host might have wrapped a user error,
+					// e.g. the failure to parse or check the program.
+					// External errors are wrappers, so unwrap them too.
 					r = err.Unwrap()
 				default:
 					panic(rootError)
